@@ -275,6 +275,17 @@ func drawC11(t *rapid.T) c11Case {
 		extra := [][]spec.FieldSpec{{pt, ps}, {ps, pt}, {pt, pb, ps}, {pb, pt}}[gen.Uniform(t, "sameSizeOrder", 4)]
 		c.Enc.Type.Fields = append(c.Enc.Type.Fields, extra...)
 	}
+	if gen.Uniform(t, "manyBankTypes", 5) == 0 {
+		// pointers to many different types in one record, in a drawn order, some of them
+		// several times: the bank's table of types grows while values of the earlier
+		// types are already in use
+		kinds := []spec.TypeSpec{spec.T("int64"), spec.T("string"), spec.T("float64"), spec.T("bool"), spec.T("int16"), spec.T("bytes"), spec.T("time"),
+			spec.Slice(spec.T("string")), spec.Map(spec.T("int64")), spec.Struct(spec.FieldSpec{Go: "V", T: spec.T("string")}), spec.T("nullString"), spec.T("float32"), spec.T("gcptr")}
+		for i, n := 0, gen.UniformRange(t, "nBankTypes", 5, 14); i < n; i++ {
+			k := kinds[gen.Uniform(t, "bankType", len(kinds))]
+			c.Enc.Type.Fields = append(c.Enc.Type.Fields, spec.FieldSpec{Go: fmt.Sprintf("BT%d", i), JSON: fmt.Sprintf("bt%d", i), T: spec.Ptr(k)})
+		}
+	}
 	if gen.Uniform(t, "zeroWidthItems", 5) == 0 {
 		// pointers to values that take no bytes on the wire, as the last field: the
 		// item count of the array is larger than what is left of the buffer
